@@ -175,7 +175,7 @@ def schedules_ooo_snap(rng, cs, tier):
     nf = len(cs.files)
     if nf >= 3:
         # always: a later capture first (records snapshots), then an OLDER one (those snapshots are stale now), then the rest
-        runs.append(("ooo9", 100000, [(0, [1]), (rng.choice([0, 1]), [0])] + [(rng.choice([0, 1]), [f]) for f in range(2, nf)]))
+        runs.append(("ooo-later-first", 100000, [(0, [1]), (rng.choice([0, 1]), [0])] + [(rng.choice([0, 1]), [f]) for f in range(2, nf)]))
     out = [runs[0]]
     for l, _, st in runs[1:]:
         st2 = [(rng.choice([0, 1]) if fl == 0 else fl, fs) for fl, fs in st]
@@ -551,6 +551,9 @@ def main(tier, seed, replay=None):
                     ("each", 100000, [(rng.choice([0, 1]), [f]) for f in range(nf)]),
                     ("nosnap", 100000, [(2, [f]) for f in range(nf)])]
             plain_sets.append((cs, runs))
+    names = [cs.name for cs, _ in plain_sets + snap_sets]
+    if len(set(names)) != len(names):
+        raise ValueError("duplicate capture-set names: %s" % sorted(n for n in set(names) if names.count(n) > 1))
     notes = ""
     res, mres, dt_go, dt_model = {}, {}, 0.0, 0.0
     for tag, group, ov in (("plain", plain_sets, None), ("snap", snap_sets, "overlay")):
@@ -610,6 +613,29 @@ def main(tier, seed, replay=None):
                     kf_seen.setdefault(v.split(":", 1)[1], []).append((cs.name + "/" + label, errs[0][:300]))
                 elif v == "violation":
                     bad.append((label, errs))
+            harness_only = bad and all(e and e[0].startswith(("harness produced no", "no result for the one-shot")) for _, e in bad)
+            if harness_only:
+                # a harness failure is not a failing input of the property: run the set alone once more
+                out1, note1, _, _ = run_impl(render_case(cs, runs), "retry", prop="c08", overlay_extra=(c05.snap_overlay() if tag == "snap" else None))
+                o1 = out1.get(cs.name, {})
+                complete = all(l in o1 and len(o1[l]["steps"]) == len(st) and not o1[l]["panic"] for l, _, st in runs)
+                if complete:
+                    res[tag][cs.name] = o1
+                    rr = o1
+                    ref_canon = canon_visible(o1["oneshot"]["steps"][-1]["streams"])
+                    bad = []
+                    for label, _, steps in runs:
+                        v, errs = classify(cs, label, o1[label], ref_canon, steps, model_run=mres[tag].get(cs.name, {}).get(label),
+                                           twin=o1.get(label + "-nosnap"), have_model=not nomodel)
+                        if v.startswith("known:") and v.split(":", 1)[1] not in known_ids:
+                            v = "violation"
+                        if v == "violation":
+                            bad.append((label, errs))
+                else:
+                    violation(PROP, {"property": PROP, "broken": "correspondence harness produced no complete result for a generated set (twice)",
+                                     "set_name": cs.name, "labels": [l for l, _, _ in runs], "note": note1[-1500:], "seed": seed}, no_input=True)
+                    nviol += 1
+                    bad = []
             if bad and nviol == 0:
                 label, errs = bad[0]
                 keep = [r for r in runs if r[0] in ("oneshot", label, label + "-nosnap")]
